@@ -799,9 +799,18 @@ func tryMerge(a, b *State) *State {
 		}
 	}
 	n.frame = &Frame{fn: a.frame.fn, parent: a.frame.parent, depth: a.frame.depth, regs: map[ssa.Value]*Value{}, defers: a.frame.defers}
+	// registers defined on one side only are kept: SSA dominance guarantees they are used only where that side was taken
+	// (in particular by phi nodes, which select on the predecessor)
 	for r, va := range a.frame.regs {
 		if vb, ok := b.frame.regs[r]; ok {
 			n.frame.regs[r] = iteValue(ca, va, vb)
+		} else {
+			n.frame.regs[r] = va
+		}
+	}
+	for r, vb := range b.frame.regs {
+		if _, ok := a.frame.regs[r]; !ok {
+			n.frame.regs[r] = vb
 		}
 	}
 	n.ghost = map[string]*Value{}
